@@ -7,13 +7,14 @@ mod dbdump;
 mod domops;
 mod rng;
 mod sched;
+mod uidgen;
 mod util;
 mod val;
 
 fn main() {
     std::panic::set_hook(Box::new(|_| {}));
     let args: Vec<String> = std::env::args().collect();
-    let handled = dbdump::cli(&args) || domops::cli(&args) || sched::cli(&args) || attr::cli(&args);
+    let handled = uidgen::cli(&args) || dbdump::cli(&args) || domops::cli(&args) || sched::cli(&args) || attr::cli(&args);
     if !handled {
         eprintln!("usage: rbxverif <kind>-<gen|run> ...");
         std::process::exit(2);
